@@ -3,7 +3,8 @@
    each file once), Proofs/LayersGroups.v (co-location, order invariance), Proofs/LayersChain.v (stack invariant, well-formed layers),
    Proofs/LayersExtract.v (the extractor read path-wise), Proofs/LayersFlatten.v. *)
 From Apko Require Import Base.Prelude Model.Tar Spec.TarSpec Model.Layers Spec.LayersSpec Proofs.LayersProofs
-  Proofs.LayersChain Proofs.LayersExtract Proofs.LayersFlatten Proofs.LayersLinks Proofs.LayersGroups Proofs.LayersValid.
+  Proofs.LayersChain Proofs.LayersExtract Proofs.LayersFlatten Proofs.LayersLinks Proofs.LayersGroups Proofs.LayersValid
+  Proofs.TarProofs Proofs.TarLinks Proofs.LayersWalkLinks Proofs.LayersSizes.
 From Coq Require Import Sorting.Permutation Sorting.Sorted.
 Open Scope string_scope. Open Scope list_scope.
 
@@ -113,6 +114,51 @@ Proof.
   intros Hb0. rewrite map_length. pose proof (group_with_count rn rs o3 o4 pkgs b gs H). lia.
 Qed.
 Print Assumptions c10_groups_ok.
+
+(* ---- group.size is a uint64 ---------------------------------------------------------------
+   `g.size += pkg.InstalledSize` wraps silently.  The model wraps at every
+   addition (Model/Layers.v wrap64); c10_size_wraps: the sort key is the true
+   sum modulo 2^64.  Everything above (count, partition, co-location, order
+   invariance, GroupsOk) is stated for ALL sizes and never looks at them, so it
+   holds under wrap-around as it stands.  What wrap-around changes is the ORDER
+   of the groups, i.e. which origins keep a layer of their own:
+   c10_groups_descending (FULL): with fewer groups than the budget (no cut-off)
+     the list is in descending order of the wrapped size, ties by largest name;
+   c10_groups_descending_true_size_partial: that is the descending order of the
+     TRUE sizes provided no group's sum reaches 2^64 (the missing part);
+   c10_groups_descending_true_size_refuted: two packages of one origin with
+     InstalledSize 2^63 each (sum 2^64, key 0) sort AFTER a 1-byte package, and
+     with budget 2 the 2-byte package keeps its own layer while the 2^64-byte
+     origin is merged into the remainder; GroupsOk holds of both results.
+   Replayed on the real code by the groups corpus (cases named size-wraps-...). *)
+Theorem c10_size_wraps : forall g, g_size g = (g_sum g mod 18446744073709551616)%N.
+Proof. exact g_size_sum. Qed.
+Print Assumptions c10_size_wraps.
+
+Theorem c10_groups_descending : forall rep_name rep_sat o3 o4 pkgs budget gs,
+  group_with rep_name rep_sat o3 o4 pkgs budget = Ok gs ->
+  (Z.of_nat (List.length gs) < budget)%Z ->
+  StronglySorted (fun a b => grp_leb a b = true) gs.
+Proof. exact group_with_descending. Qed.
+Print Assumptions c10_groups_descending.
+
+Theorem c10_groups_descending_true_size_partial : forall rep_name rep_sat o3 o4 pkgs budget gs,
+  group_with rep_name rep_sat o3 o4 pkgs budget = Ok gs ->
+  (Z.of_nat (List.length gs) < budget)%Z ->
+  (forall g, In g gs -> (g_sum g < 18446744073709551616)%N) ->
+  StronglySorted (fun a b => (g_sum b <= g_sum a)%N) gs.
+Proof. exact group_with_descending_true_size. Qed.
+Print Assumptions c10_groups_descending_true_size_partial.
+
+Theorem c10_groups_descending_true_size_refuted :
+  g_sum [w_big "a"; w_big "b"] = 18446744073709551616%N /\ g_size [w_big "a"; w_big "b"] = 0%N /\
+  group (fun r => r) (fun _ _ => Ok true) w_wrap_pkgs 4 = Ok [[w_small "d" 2]; [w_small "c" 1]; [w_big "a"; w_big "b"]] /\
+  ~ StronglySorted (fun a b => (g_sum b <= g_sum a)%N) [[w_small "d" 2]; [w_small "c" 1]; [w_big "a"; w_big "b"]] /\
+  group (fun r => r) (fun _ _ => Ok true) w_wrap_pkgs 2 = Ok [[w_small "d" 2]; [w_big "a"; w_big "b"; w_small "c" 1]] /\
+  groups_tags (fun r => r) (fun _ _ => Ok true) w_wrap_pkgs 4 [["d"]; ["c"]; ["a"; "b"]] = [] /\
+  groups_tags (fun r => r) (fun _ _ => Ok true) w_wrap_pkgs 2 [["d"]; ["a"; "b"; "c"]] = [].
+Proof. exact size_wrap_witness. Qed.
+Print Assumptions c10_groups_descending_true_size_refuted.
 
 Example c10_groups_example :
   let pk := [ {| p_name := "a"; p_version := "1"; p_origin := "oa"; p_size := 30; p_replaces := ["c"] |};
@@ -242,6 +288,83 @@ Theorem c10_flatten_walk : forall ev t gs own layers,
 Proof. exact split_flatten_walk. Qed.
 Print Assumptions c10_flatten_walk.
 
+(* c10_flatten_walk_links (FULL): the same for trees WITH recorded hard links, in
+   C06's envelope for them (wfl_forest, Spec/TarSpec.v, clause by clause: an
+   additional name p of the inode first known as q was recorded with a tar header;
+   q sorts before p in the walk; q is a path a Linkname can carry; the node at q
+   in the same tree is a non-directory with the same metadata and content; the
+   shared node is not a symlink with a target; all other nodes as in wf_forest),
+   plus C10's own clause LinksShareOwner: a recorded link has the owner of its
+   target (tarfs: the link shares the node, hence memFileInfo.Package()).  Then,
+   for every grouping: the layers of the walk, applied in order, ARE the tree —
+   inode sharing included (the [hard] field of every node).  Uses C06's
+   c06_extract_walk_links (Proofs/TarLinks.v). *)
+Theorem c10_flatten_walk_links : forall ev t gs own layers,
+  wfl_forest (has_hdr ev) t = true ->
+  (forall e, In e (walk ev t) -> is_dir e = true -> own (e_path e) = None) ->
+  LinksShareOwner own t ->
+  split_layers gs own (walk ev t) = Ok layers ->
+  exists a, apply_layers layers = Ok a /\ canon_forest a = canon_forest t.
+Proof. exact split_flatten_walk_links. Qed.
+Print Assumptions c10_flatten_walk_links.
+
+(* ... and everything else the specification asks of the layers *)
+Theorem c10_layers_ok_walk_links : forall ev t gs own layers,
+  NoDup (List.concat gs) ->
+  wfl_forest (has_hdr ev) t = true ->
+  (forall e, In e (walk ev t) -> is_dir e = true -> own (e_path e) = None) ->
+  LinksShareOwner own t ->
+  split_layers gs own (walk ev t) = Ok layers ->
+  LayersOk gs own (walk ev t) layers.
+Proof. exact split_layers_ok_walk_links. Qed.
+Print Assumptions c10_layers_ok_walk_links.
+
+(* the condition can be read off the walk's link entries *)
+Theorem c10_links_share_owner_decidable : forall ev t own, wfl_forest (has_hdr ev) t = true ->
+  links_share_ownerb own (walk ev t) = true -> LinksShareOwner own t.
+Proof. intros ev t own H Hb. exact (links_share_owner_of_walk ev t own H (links_share_ownerb_spec own _ Hb)). Qed.
+Print Assumptions c10_links_share_owner_decidable.
+
+(* the owner clause is necessary: tree {b; c = second name of b}, c owned by a
+   package whose layer precedes the layer of b's package: the link is written
+   to a layer applied before its target exists *)
+Theorem c10_flatten_walk_links_owner_refuted :
+  let own := w_own2 ["c"] ["b"] in
+  wfl_forest (has_hdr env_allhdr) w_link_two_owners = true /\
+  (forall e, In e (walk env_allhdr w_link_two_owners) -> is_dir e = true -> own (e_path e) = None) /\
+  ~ LinksShareOwner own w_link_two_owners /\
+  exists layers, split_layers [["a"]; ["b"]] own (walk env_allhdr w_link_two_owners) = Ok layers /\
+    apply_layers layers = Err.
+Proof. exact walk_link_owner_breaks_flatten. Qed.
+Print Assumptions c10_flatten_walk_links_owner_refuted.
+
+(* the clauses of the envelope are necessary: for each of C06's boundary trees
+   (name recorded without a header; target sorting after the link; shared node
+   a symlink with a target; recorded name resolving to another node — finding
+   C06-F5) the layers — one top layer, no package at all — do not flatten to
+   the tree *)
+Theorem c10_flatten_walk_links_envelope_refuted :
+  (forall ev t, flatten_fails ev t -> forall layers, split_layers [] (fun _ => None) (walk ev t) = Ok layers ->
+     ~ exists a, apply_layers layers = Ok a /\ canon_forest a = canon_forest t) /\
+  flatten_fails env_nohdr w_link_after /\ flatten_fails env_allhdr w_link_before /\
+  flatten_fails env_allhdr w_link_to_symlink /\ flatten_fails env_allhdr w_link_names_symlink /\
+  wfl_forest (has_hdr env_nohdr) w_link_after = false /\ wfl_forest (has_hdr env_allhdr) w_link_before = false /\
+  wfl_forest (has_hdr env_allhdr) w_link_to_symlink = false /\ wfl_forest (has_hdr env_allhdr) w_link_names_symlink = false.
+Proof. split; [exact flatten_fails_not | exact walk_links_envelope_boundary]. Qed.
+Print Assumptions c10_flatten_walk_links_envelope_refuted.
+
+(* the hypotheses are satisfiable outside the link-free envelope: C06's tree
+   with four recorded links (one in another directory, one naming another link,
+   one to a character device), three of them owned by package "gz" and written
+   to its layer *)
+Example c10_flatten_walk_links_example :
+  wfl_forest (has_hdr env_allhdr) w_links = true /\ wf_forest w_links = false /\
+  (forall e, In e (walk env_allhdr w_links) -> is_dir e = true -> w_links_own (e_path e) = None) /\
+  LinksShareOwner w_links_own w_links /\
+  exists layers, split_layers [["other"]; ["gz"]] w_links_own (walk env_allhdr w_links) = Ok layers /\
+    List.length layers = 3 /\ List.length (filter (fun e => match e_kind e with KLink => true | _ => false end) (nth 1 layers [])) = 3.
+Proof. exact w_links_hyps. Qed.
+
 Theorem c10_flatten_owned_directory_refuted :
   let es := [w_dir ["d"] 5; w_reg ["d"; "x"] 8] in
   let own := w_own2 ["d"] ["d"; "x"] in
@@ -258,6 +381,27 @@ Theorem c10_flatten_split_hardlink_refuted :
 Proof. exact split_link_breaks_flatten. Qed.
 Print Assumptions c10_flatten_split_hardlink_refuted.
 
+(* c10_layers_self_contained (FULL): "each layer is a self-contained tar" as far
+   as hard links go — in every layer a hard-link entry names a non-directory
+   written EARLIER IN THAT SAME LAYER (with c10_layers_wellformed: parents first,
+   no path twice).  Needs LinksWithTarget (a link has the owner of its target):
+   c10_link_in_later_layer_refuted — with the link's owner in a later layer
+   than the target's the layers still apply in order and flatten to the single
+   layer, but the link's layer cannot be unpacked on its own. *)
+Theorem c10_layers_self_contained : forall gs own es layers,
+  WalkSeq es -> LinksWithTarget own es -> split_layers gs own es = Ok layers ->
+  Forall LayerLinksInside layers.
+Proof. exact split_links_inside_spec. Qed.
+Print Assumptions c10_layers_self_contained.
+
+Theorem c10_link_in_later_layer_refuted :
+  let es := [w_reg ["b"] 8; w_lnk ["c"] "b"] in
+  let own := w_own2 ["b"] ["c"] in
+  exists layers a, split_layers [["a"]; ["b"]] own es = Ok layers /\
+    apply_layers layers = Ok a /\ extract es = Ok a /\ ~ Forall LayerLinksInside layers.
+Proof. exact link_in_later_layer. Qed.
+Print Assumptions c10_link_in_later_layer_refuted.
+
 (* everything the specification asks of the layers, together *)
 Theorem c10_layers_ok : forall gs own es layers,
   NoDup (List.concat gs) -> WalkSeq es -> LinksWithTarget own es ->
@@ -265,11 +409,12 @@ Theorem c10_layers_ok : forall gs own es layers,
   split_layers gs own es = Ok layers -> LayersOk gs own es layers.
 Proof.
   intros gs own es layers Hnd W Hl Hd H. destruct (c10_each_file_once gs own es layers Hnd H) as [Hlen [Hf _]].
-  split; [| split; [| split]].
+  split; [| split; [| split; [| split]]].
   - exact (c10_flatten gs own es layers W Hl Hd H).
   - exact Hf.
   - exact (c10_layers_wellformed gs own es layers W H).
   - exact Hlen.
+  - exact (c10_layers_self_contained gs own es layers W Hl H).
 Qed.
 Print Assumptions c10_layers_ok.
 
